@@ -412,6 +412,17 @@ class Check:
             if data["claim"].startswith("returns_normally"):
                 print(f"REPLAY reproduced=True detail=real code raised {type(e).__name__}: {e}")
                 sys.exit(1)
+            # the symbolic run returned a value for this input (that is why there is a claim about it); the real build
+            # raising an arithmetic error from inside SophT on the same input does not satisfy a claim about the result
+            tb = e.__traceback__
+            last = None
+            while tb is not None:
+                last = tb.tb_frame.f_code.co_filename
+                tb = tb.tb_next
+            repo_root = os.path.realpath(os.environ.get("VERIF_REPO", "/repo"))
+            if isinstance(e, ArithmeticError) and last and os.path.realpath(last).startswith(os.path.join(repo_root, "sopht")):
+                print(f"REPLAY reproduced=True detail=real code raised {type(e).__name__}: {e} (in {os.path.relpath(last, repo_root)}) where the claim needs a returned value")
+                sys.exit(1)
             traceback.print_exc()
             print(f"REPLAY reproduced=False reason=exception {type(e).__name__}: {e}")
             sys.exit(3)
@@ -440,8 +451,21 @@ class Check:
 
             ctxmp = mp.get_context("fork")
             # one task per worker process: the hash-consing table of a finished scenario is released with its process
+            # wall budget of the whole tier: an instance that is still running at the deadline (a solver call that ignores
+            # its time limit, a path explosion on changed code) is reported as inconclusive instead of hanging the check
+            budget = float(os.environ.get("VERIF_WALL_BUDGET", "1800" if self.quick else "14400"))
+            deadline = time.time() + budget
             with ctxmp.Pool(jobs, maxtasksperchild=1) as pool:
-                results = pool.starmap(_run_task, [(t, self.seed) for t in tasks], chunksize=1)
+                asyncs = [pool.apply_async(_run_task, (t, self.seed)) for t in tasks]
+                results = []
+                for t, a in zip(tasks, asyncs):
+                    try:
+                        results.append(a.get(timeout=max(1.0, deadline - time.time())))
+                    except mp.TimeoutError:
+                        results.append({"scenario": t[0], "params": t[1], "real_t": t[2], "failures": [], "n_claims": 0, "n_trivial": 0, "sample": None, "claim_keys": [],
+                                        "error": f"instance not finished within the wall budget of the tier ({budget:.0f} s)", "stats": smt.Stats().as_dict(), "wall_s": budget,
+                                        "notes": [], "worst_case": {}, "n_by_normal_form": 0})
+                pool.terminate()
         self.records.extend(results)
         return results
 
@@ -805,7 +829,12 @@ def explore(ctx, fn, max_paths=64, tag="path"):
             if r.status == "unknown":
                 r = smt.check_sat(ctx.hyps + [cond], timeout_ms=20000, tag=tag + ":feasible-nlsat", tactic="qfnra-nlsat")
             if r.status == "unknown":
-                raise S.SymError("path feasibility unknown")
+                if cond is S.TRUE:
+                    raise S.SymError("path feasibility unknown")
+                # undecided feasibility: explore the branch anyway (over-approximation of the path set; a refutation
+                # found on it must still reproduce on the real code to be reported)
+                ctx.note("a branch of undecided feasibility was explored")
+                r = smt.Result("sat", None, r.time, r.tag)
             return r
 
         def decide_bool(cond):
@@ -966,3 +995,56 @@ def merge_equal_radicands(ctx, roots):
     if not mapping:
         return roots
     return S.substitute(roots, mapping)
+
+
+# =========================================================================================
+# size-gated code paths: distinct code variants of a generated kernel over a range of a size parameter
+# =========================================================================================
+def code_signature(fn, size=None, _depth=0):
+    """structural signature of a Python callable: byte code, names, constants (recursively) and the non-array closure
+    contents (functions recursively; ints equal to `size` are the size itself and are left out)."""
+    import types
+
+    fn = getattr(fn, "py_func", fn)  # numba dispatcher -> its Python function
+    code = getattr(fn, "__code__", None)
+    if code is None or _depth > 4:
+        return ("obj", type(fn).__name__, getattr(fn, "__name__", ""))
+
+    def const_sig(c):
+        if isinstance(c, types.CodeType):
+            return ("code", c.co_code, c.co_names, tuple(const_sig(x) for x in c.co_consts))
+        if isinstance(c, (int, float, str, bytes, bool, type(None), complex)):
+            return c
+        if isinstance(c, tuple):
+            return tuple(const_sig(x) for x in c)
+        return type(c).__name__
+
+    cells = []
+    for name, cell in zip(code.co_freevars, fn.__closure__ or ()):
+        try:
+            v = cell.cell_contents
+        except ValueError:
+            continue
+        if isinstance(v, bool) or v is None or isinstance(v, str):
+            cells.append((name, v))
+        elif isinstance(v, (int, float)):
+            cells.append((name, "<number>"))  # numeric closure values (sizes, spacings) are data, not code
+        elif isinstance(v, type):
+            cells.append((name, "type", getattr(v, "__module__", ""), getattr(v, "__qualname__", "")))
+        elif callable(v):
+            cells.append((name, code_signature(v, size, _depth + 1)))
+        elif isinstance(v, np.ndarray):
+            cells.append((name, "array", v.ndim, str(v.dtype)))
+        else:
+            cells.append((name, type(v).__name__))
+    return ("fn", code.co_code, code.co_names, tuple(const_sig(c) for c in code.co_consts), tuple(cells))
+
+
+def size_variants(make, sizes):
+    """make(n) -> callable.  Returns [(smallest n, signature)] per distinct code variant, in order of first appearance."""
+    seen = {}
+    for n in sizes:
+        sig = code_signature(make(n), n)
+        if sig not in seen:
+            seen[sig] = n
+    return sorted(seen.values())
